@@ -70,6 +70,9 @@ def cases(tier, seed):
         for scale in (1.0, 2.0):
             for picker in ("LoG", "DoG"):
                 out.append({"layout": lay, "scale": scale, "picker": picker, "dtype": "float32", "seed": seed, "img": [1, 24, 24]})
+    # call histories on one picker object: a pick must not depend on which images / scales the picker served before
+    for picker in ("ZNCC-provider", "LoG", "DoG"):
+        out.append({"family": "history", "picker": picker, "depth": 2 if tier == "quick" else 3})
     return out
 
 
@@ -168,10 +171,94 @@ def _match(picks, refs, tol):
     return left, refs
 
 
+TBLOBS2 = [(1.0, (-1.8, 1.3, 0.9), 0.9), (0.9, (1.5, -1.4, -1.1), 0.9), (0.6, (1.6, 1.7, 1.2), 0.8)]  # no central blob: unlike TBLOBS
+
+
+def _run_history(case):
+    """one picker object serving several (image, scale) requests in every order; the template of the matcher is an
+    ImageProvider whose image depends on the scale (another particle at scale 2), as a provider may"""
+    import dask
+    from scipy.spatial.transform import Rotation
+
+    from acryo import pick, pipe
+
+    from vf import history
+
+    dask.config.set(scheduler="synchronous")
+    pk = case["picker"]
+    g = np.stack(np.meshgrid(*[np.arange(n, dtype=np.float64) for n in IMG], indexing="ij"), -1)
+    sites = [SITES[0], SITES[4], SITES[3]]
+    rotq = Rotation.from_rotvec(np.array(ROTVECS))
+    quats = rotq.as_quat()
+
+    def scene(blobs):
+        img = np.zeros(IMG)
+        for n, c in enumerate(sites):
+            R = Rotation.from_rotvec(ROTVECS[n % 3]).as_matrix()
+            img += data.particle((g - np.array(c, dtype=np.float64)) @ R, blobs) if pk == "ZNCC-provider" else np.exp(-((g - np.array(c)) ** 2).sum(-1) / (2 * 1.5**2))
+        return img.astype(np.float32)
+
+    imgs = {1.0: scene(TBLOBS), 2.0: scene(TBLOBS2)}
+
+    def make():
+        if pk == "LoG":
+            return lambda s: pick.LoGPicker(1.5 * s), {}
+        if pk == "DoG":
+            return lambda s: pick.DoGPicker(1.5 * s, 2.6 * s), {}
+        prov = pipe.provider_function(lambda scale: data.particle_box(TEMPLATE_SHAPE, blobs=TBLOBS if scale < 1.5 else TBLOBS2).astype(np.float32))()
+        m = pick.ZNCCTemplateMatcher(prov, rotation=rotq, order=1)
+        return lambda s: m, {"min_distance": 3.0, "min_score": 0.6}
+
+    def op(scale, kind):
+        def run(state):
+            get, kw = state
+            kw = {k: (v * scale if k == "min_distance" else v) for k, v in kw.items()}
+            mol = get(scale).pick_molecules(_as_array(imgs[scale], kind), scale, **kw)
+            pos = np.round(np.asarray(mol.pos, dtype=np.float64) / scale, 2)
+            rot = [0] * len(pos)
+            if pk == "ZNCC-provider" and len(pos):
+                rot = [int(np.argmax([abs(float(np.dot(qi, qq))) for qq in quats])) for qi in mol.quaternion()]
+            return sorted([tuple(p.tolist()) + (r,) for p, r in zip(pos, rot)])
+        return run
+
+    ops = [(f"pick(scale={s},{k})", op(s, k)) for s in (1.0, 2.0) for k in ("numpy", "dask:12")]
+    if pk != "ZNCC-provider":
+        # LoG/DoG pickers are parameterised per scale here (a fresh object per call): the state is the module-level memo only
+        pass
+    res = history.explore(make, ops, case["depth"], atol=1e-6, rtol=0)
+    if res["raises_alone"]:
+        raise RuntimeError(f"harness: {res['raises_alone']} raise on a fresh picker")
+    viol, seen = [], set()
+    # the solo answers themselves: one pick per particle at the planted sites, with the planted rotation
+    for name, fn in ops:
+        history.reset_memo_caches()
+        got = fn(make())
+        want = sorted([tuple(float(v) for v in c) + ((n % 3) if pk == "ZNCC-provider" else 0,) for n, c in enumerate(sites)])
+        if len(got) != len(want) or any(np.abs(np.array(a[:3]) - np.array(b[:3])).max() > 1.0 or a[3] != b[3] for a, b in zip(got, want)):
+            viol.append((f"{ID}|{pk}|history|solo-pick-wrong", f"{name} on a fresh picker: {got}, planted {want}"))
+            break
+    for hist, why in res["failures"]:
+        sg = f"{ID}|{pk}|history|pick-depends-on-earlier-calls"
+        if sg not in seen:
+            seen.add(sg)
+            viol.append((sg, f"{hist[-1]} after {hist[:-1]} differs from the same call on a fresh picker: {why}"))
+    for hist, err in res["errors"]:
+        sg = f"{ID}|{pk}|history|raised"
+        if sg not in seen:
+            seen.add(sg)
+            viol.append((sg, f"{hist} raised {err}"))
+    if res["nondeterministic"]:
+        viol.append((f"{ID}|{pk}|history|not-reproducible", f"{res['nondeterministic']}"))
+    return {"nontrivial": True, "outcome": f"history|{pk}|{'viol' if viol else 'ok'}", "viol": viol,
+            "metrics": {"history_sequences": res["sequences"], "history_calls": res["calls"]}}
+
+
 def run_case(case):
     import dask
     from scipy.spatial.transform import Rotation
 
+    if case.get("family") == "history":
+        return _run_history(case)
     dask.config.set(scheduler="synchronous")
     img, planted = _image(case)
     scale = case["scale"]
